@@ -112,6 +112,42 @@ func TestLbvcScenarioProposalRaces(t *testing.T) {
 			}
 		}
 	}
+	// requests that are current but name the wrong replica
+	if want("ShrinkISR") || want("ExpandISR") {
+		func() {
+			cleanupStorage(t)
+			cfg := getTestConfig("a", true, 5050)
+			s1 := runServerWithConfig(t, cfg)
+			defer func() { s1.Stop(); cleanupStorage(t) }()
+			getMetadataLeader(t, 10*time.Second, s1)
+			op := &proto.RaftLog{Op: proto.Op_CREATE_STREAM, CreateStreamOp: &proto.CreateStreamOp{Stream: &proto.Stream{
+				Name: "bar", Subject: "bar", Partitions: []*proto.Partition{{Stream: "bar", Subject: "bar", Id: 0, ReplicationFactor: 4,
+					Replicas: []string{"b", "c", "d", "e"}, Isr: []string{"b", "c", "d"}, Leader: "b"}}}}}
+			if fut, err := s1.getRaft().applyOperation(context.Background(), op, nil); err != nil || fut.Error() != nil {
+				return
+			}
+			bp := s1.metadata.GetPartition("bar", 0)
+			if bp == nil {
+				return
+			}
+			l0, e0 := bp.GetLeader()
+			if want("ExpandISR") {
+				// (not proposed: applying it makes Server.Apply panic on every server)
+				exp := &proto.RaftLog{Op: proto.Op_EXPAND_ISR, ExpandISROp: &proto.ExpandISROp{Stream: "bar", Partition: 0, ReplicaToAdd: "not-a-replica", Leader: l0, LeaderEpoch: e0}}
+				if err := s1.metadata.checkExpandISRPreconditions(exp); err == nil {
+					problems = append(problems, "an in-sync-set expansion by \"not-a-replica\" (current leader and epoch) passes the proposal-time check; applying it fails on every server (partition.AddToISR: not a replica) and Server.Apply panics on an apply error")
+				}
+			}
+			if want("ShrinkISR") {
+				st := s1.metadata.ShrinkISR(context.Background(), &proto.ShrinkISROp{Stream: "bar", Partition: 0, ReplicaToRemove: l0, Leader: l0, LeaderEpoch: e0})
+				if l1, _ := bp.GetLeader(); !bp.inISR(l1) {
+					i := bp.GetISR()
+					sort.Strings(i)
+					problems = append(problems, fmt.Sprintf("an in-sync-set shrink naming the leader %s itself as the replica to remove was accepted (status %v): leader %s is not in the in-sync set %v", l0, st, l1, i))
+				}
+			}
+		}()
+	}
 	if want("ChangeLeader") || want("electNewPartitionLeader") {
 		run("change-leader")
 	}
